@@ -119,10 +119,37 @@ def _signing():
     return out
 
 
+def _networks():
+    from harness import networks
+    obs = common.pmap(networks.observe, [0])[0]
+    calls = [{k: v for k, v in c.items() if k not in ('arg', 'err')} for c in obs['calls']]
+    pick = {}
+    for c in calls:
+        if not c['raised'] and c['got'] and c['op'] not in pick:
+            pick[c['op']] = c
+    honest = common.tlc_eval('NetworksEval', [{'table': obs['table'], 'first': True, 'calls': list(pick.values())}])[0]
+    out = [('network lookups accepted as recorded', all(v['v'] == 'ok' for v in honest['calls']) and not honest['diff']['changed'], '')]
+    bad = copy.deepcopy(list(pick.values()))
+    for c in bad:
+        if c['op'] == 'wif_prefix':
+            c['got'] = c['got'][:-1] + ('0' if c['got'][-1] != '0' else '1')
+        else:
+            c['got'] = c['got'][1:] if len(c['got']) > 1 else c['got'] + c['got']
+    table = copy.deepcopy(obs['table'])
+    table[1]['prefix_wif'] = '81'
+    v = common.tlc_eval('NetworksEval', [{'table': obs['table'], 'first': True, 'calls': bad}])[0]
+    out.append(('one entry dropped from / doubled in a recorded lookup answer, one version digit changed -> each rejected',
+                all(x['v'] != 'ok' for x in v['calls']), ''))
+    v = common.tlc_eval('NetworksEval', [{'table': table, 'first': True, 'calls': []}])[0]
+    out.append(('secret-key version byte of one network changed in the table -> difference from the pinned table reported',
+                [list(x) for x in v['diff']['changed']] == [[table[1]['name'], 'prefix_wif']], ''))
+    return out
+
+
 def run():
     common.fresh_bitcoinlib_env()
     results = []
-    for part in (_wallet, _cache, _signing):
+    for part in (_wallet, _cache, _signing, _networks):
         results += part()
     bad = 0
     for text, ok, _ in results:
